@@ -91,6 +91,11 @@ def _history(draw, n_in, n_out, allow_name=True):
 
 @st.composite
 def _case(draw, tier):
+    if prob(draw, 0.08):
+        # Part C: ONE inner graph with a bound input, used twice in an enclosing graph: under its own names and with the bound
+        # input (and the outputs) renamed; the enclosing graph may bind the inner name itself, and is nested once more
+        return {"part": "C", "via_temp": draw(st.booleans()), "new_name": draw(st.sampled_from(["fee", "fee", "x", "zz"])), "outer_binds_inner_name": prob(draw, 0.3),
+                "order": draw(st.integers(0, 1)), "levels": draw(st.integers(1, 3)), "runner": draw(st.sampled_from(["sync", "async"])), "supply_new": prob(draw, 0.3)}
     if prob(draw, 0.25):
         # Part B: alpha-renaming
         topo = draw(gen.g1_nodes(2, 7))
@@ -132,6 +137,10 @@ def _case(draw, tier):
         "map_mode": draw(st.sampled_from(["zip", "product"])),
         "nitems": draw(st.integers(0, 3)),
         "two_inner": draw(st.booleans()),
+        # the function node is cacheable and runs on a runner that carries a cache; afterwards the ORIGINAL node is given the very
+        # same {external name: value} mapping on the same runner (when the history permuted the input names, the two nodes wire
+        # those values to different parameters: neither may be served the other's result)
+        "cached": draw(st.booleans()),
     }
     return case
 
@@ -154,7 +163,7 @@ def _spec(case):
     if case.get("emit_renamed") and kind in ("func", "interrupt", "ifelse", "route"):
         base["emit"] = ["sig_e"]
     if kind == "func":
-        return {**base, "k": "func", "outs": OPOOL[:n_out]}
+        return {**base, "k": "func", "outs": OPOOL[:n_out], **({"cache": True} if case.get("cached") else {})}
     if kind == "interrupt":
         return {**base, "k": "interrupt", "outs": OPOOL[:n_out], "mode": "auto", "answer": ["answer"]}
     if kind == "ifelse":
@@ -334,8 +343,9 @@ def _part_a(case, ev):
     # ---- execution through a runner
     supplied = {}
     cur_of_pos = {slot_orig[i]: cur_in[i] for i in range(n_in)}
+    supply_all = kind == "func" and bool(case.get("cached")) and set(cur_in0) == set(cur_in) and cur_in0 != cur_in  # permuted names: see below
     for pos in range(n_in):
-        if pos not in eff_defaults or case["supply"][pos]:
+        if pos not in eff_defaults or case["supply"][pos] or supply_all:
             supplied[cur_of_pos[pos]] = ("val", pos)
     want_args = tuple(supplied.get(cur_of_pos[pos], eff_defaults.get(pos)) for pos in range(n_in))
     if kind in ("ifelse", "route"):
@@ -352,8 +362,9 @@ def _part_a(case, ev):
         out = run_sync(g, supplied)
     else:
         from hypergraph import SyncRunner
+        from hypergraph.cache import InMemoryCache
 
-        shared_runner = SyncRunner()  # the receiver is re-run on the SAME runner object below
+        shared_runner = SyncRunner(cache=InMemoryCache())  # the receiver is re-run on the SAME runner object (and cache) below
         g = Graph([node] + ([waiter] if waiter is not None else []))
         out = run_sync(g, supplied, runner=shared_runner)
     if out.status != "completed":
@@ -384,6 +395,30 @@ def _part_a(case, ev):
         if kind == "interrupt":
             if out.values.get(cur_out[0]) != ("answer",):
                 raise Violation("c06.output_value", f"[interrupt] {J(out.values)} expected answer under {cur_out[0]!r}", kind_of_node=kind)
+    # ---- cacheable function node: the original node gets the SAME name -> value mapping on the same runner and cache
+    if kind == "func" and case.get("cached") and hist and set(cur_in0) == set(cur_in) and n_out >= 1:
+        cur0 = {slot_orig[i]: cur_in0[i] for i in range(n_in)}
+        sup_same = {nm: v_ for nm, v_ in supplied.items()}
+        want_same = tuple(sup_same.get(cur0[pos], eff_defaults.get(pos)) for pos in range(n_in))
+    if kind == "func" and case.get("cached") and hist and set(cur_in0) == set(cur_in) and n_out >= 1 and all(pos in eff_defaults or cur0[pos] in sup_same for pos in range(n_in)):
+        o_same = run_sync(Graph([node0]), sup_same, runner=shared_runner)
+        outs0 = list(node0.outputs)[:n_out]
+        want_v = {o: (fid, j, want_same) for j, o in enumerate(outs0)}
+        if o_same.status != "completed" or {k_: (o_same.values or {}).get(k_) for k_ in want_v} != want_v:
+            raise Violation("c06.cache_ignores_wiring", f"[func, cached] after the renamed copy (inputs {cur_in}) ran with {J(supplied)} on a runner with a cache, the ORIGINAL node (inputs {cur_in0}) run with the same "
+                            f"mapping gave {o_same.brief()}, expected {J(want_v)}; history={J(hist)}", permuted=want_same != want_args)
+        labels.add("cached_original_after_renamed_copy" + (":permuted_wiring" if want_same != want_args else ""))
+    # ---- a renamed nested-graph node on the ASYNC runner, alone and wrapped once more (the wrapper around it renames nothing): the
+    # values still arrive under the current output names
+    if kind == "graph":
+        for how in ("async", "async_wrapped_again"):
+            ctx.reset()
+            ga = Graph([node]) if how == "async" else Graph([Graph([node], name="midg").as_node(name="midw")])
+            oa = run_async(ga, supplied)
+            want_vals = {o: (fid, j, want_args) for j, o in enumerate(cur_out[:n_out])}
+            if oa.status != "completed" or {k_: (oa.values or {}).get(k_) for k_ in want_vals} != want_vals or set(oa.values) - set(cur_out) - set(supplied) - {"w_out"}:
+                raise Violation("c06.output_value", f"[graph, {how}] run with {J(supplied)} gave {oa.brief()}, expected {J(want_vals)}; outputs={cur_out} history={J(hist)}", kind_of_node=kind, how=how)
+        labels.add("graph_node_async_and_wrapped_again")
     # ---- the receiver of all those derivations, run under ITS names: nothing of the history may have reached it
     if case.get("rerun_receiver") and kind in ("func", "graph") and hist:
         cur0 = {slot_orig[i]: cur_in0[i] for i in range(n_in)}
@@ -392,6 +427,9 @@ def _part_a(case, ev):
         ctx.reset()
         out0 = run_sync(Graph([node0]), sup0, runner=shared_runner)
         calls0 = ctx.calls(fid)
+        if kind == "func" and case.get("cached") and out0.status == "completed" and not calls0:
+            # served from the runner's cache (legitimate when the very same arguments were seen before): judge the values
+            calls0 = [want0] if all(out0.values.get(o) == (fid, j, want0) for j, o in enumerate(list(node0.outputs)[:n_out])) else []
         if out0.status != "completed" or not calls0 or calls0[-1] != want0:
             raise Violation("c06.receiver_behaviour_changed", f"[{kind}] after the history {J(hist)} the ORIGINAL node (inputs {cur_in0}) run with {J(sup0)} gave {out0.brief()} / calls {J(calls0)}, expected arguments {J(want0)}", kind_of_node=kind)
         labels.add("receiver_rerun")
@@ -435,7 +473,49 @@ def _part_b(case, ev):
     ev.case(case, nbatches >= 2 and (swaps or any(sigma[k] in sigma and sigma[k] != k for k in sigma)), ["alpha_renaming"] + (["alpha_swaps"] if swaps else []))
 
 
+def _part_c(case, ev):
+    from hypergraph import Graph
+
+    ctx = Ctx()
+    f = make_node(ctx, {"k": "func", "name": "f", "params": ["x", "rate"], "defaults": {}, "outs": ["y"]}, "sync")
+    R = ("bound", "rate")
+    inner = Graph([f], name="inner").bind(rate=R)
+    new = case["new_name"]
+    if new == "x":
+        new = "fee"  # (the renamed copy must not take over the other input's name: that would merge two inputs)
+    A = inner.as_node(name="A")
+    B = inner.as_node(name="B")
+    B = B.with_inputs(rate="tmp_r").with_inputs(tmp_r=new) if case["via_temp"] else B.with_inputs(rate=new)
+    B = B.with_outputs(y="y2")
+    mid = Graph([A, B] if case["order"] == 0 else [B, A], name="mid")
+    R2 = ("outer", "rate")
+    if case["outer_binds_inner_name"]:
+        mid = mid.bind(rate=R2)  # the enclosing graph binds the INNER name itself: that is A's input, not B's
+    g = mid
+    for lv in range(case["levels"] - 1):
+        g = Graph([g.as_node(name=f"lv{lv}")], name=f"g{lv}")
+    tag = f"inner.bind(rate=..) used as A and as B.with_inputs(rate -> {new!r}{' via a temporary name' if case['via_temp'] else ''}), levels={case['levels']}, enclosing bind(rate)={case['outer_binds_inner_name']}"
+    rate_A = R2 if case["outer_binds_inner_name"] else R
+    rate_B = R
+    if set(g.inputs.required) != {"x"} or not {"rate", new} <= set(g.inputs.optional):
+        raise Violation("c06.bound_follows_rename", f"[{tag}] required={g.inputs.required} optional={g.inputs.optional}; expected required ('x',) and both 'rate' and {new!r} optional (bound)", what="spec")
+    b = dict(mid.inputs.bound)
+    if b.get("rate") is not rate_A or b.get(new) is not rate_B:
+        raise Violation("c06.bound_follows_rename", f"[{tag}] the enclosing graph reports bound={J(b)}; expected rate -> {J(rate_A)} and {new} -> {J(rate_B)}", what="bound")
+    vals = {"x": ("in", "x", 0)}
+    if case["supply_new"]:
+        vals[new] = ("in", new, 1)
+        rate_B = vals[new]
+    out = (run_sync if case["runner"] == "sync" else run_async)(g, vals)
+    want = {"y": ("f", 0, (vals["x"], rate_A)), "y2": ("f", 0, (vals["x"], rate_B))}
+    if out.status != "completed" or {k: v for k, v in out.values.items() if k in want} != want:
+        raise Violation("c06.bound_follows_rename", f"[{tag}] {case['runner']} run with {J(vals)} gave {out.brief()}, expected {J(want)}", what="run")
+    ev.case(case, True, ["part:C", f"levels:{case['levels']}", "inner_bound_graph_used_plain_and_renamed"])
+
+
 def check_case(case, ev):
+    if case.get("part") == "C":
+        return _part_c(case, ev)
     if case["part"] == "A":
         _part_a(case, ev)
     else:
